@@ -163,13 +163,17 @@ def higherIsS2Left (p v n : P2 α) : Bool := !decide (slope p v > slope v n)
 def higherIsS2Right (p v n : P2 α) : Bool := !decide (slope p v < slope v n)
 
 /-- `triangulateSweepState.VertexType` for a vertex `v` with predecessor `p` (`s1[0]`) and
-successor `n` (`s2[1]`).  `none` = the panic "no x values should be exactly equal". -/
+successor `n` (`s2[1]`).  `none` = a panic: "no x values should be exactly equal", or "segments
+overlap with same slope" from `sortedEdge.Compare` when both edges leave `v` to the same side with
+equal slopes. -/
 def vertexType (p v n : P2 α) : Option VType :=
   if p.x = n.x ∨ p.x = v.x ∨ n.x = v.x then none
   else if v.x < p.x ∧ v.x < n.x then
-    some (if higherIsS2Left p v n then .start else .split)
+    if slope p v = slope v n then none
+    else some (if higherIsS2Left p v n then .start else .split)
   else if p.x < v.x ∧ n.x < v.x then
-    some (if higherIsS2Right p v n then .merge else .end)
+    if slope p v = slope v n then none
+    else some (if higherIsS2Right p v n then .merge else .end)
   else if n.x < p.x then some .lower else some .upper
 
 end Scalar
@@ -414,14 +418,27 @@ def triOrient (c : Nat → P2 α) (t : Tri) : α := orient (c t.1) (c t.2.1) (c 
 
 def sumF {β : Type} (f : β → α) (l : List β) : α := (l.map f).foldr (· + ·) 0
 
+/-- Refinement is only applied in strict mode (a zero-area triangle has colinear overlapping edges,
+which subdivision would turn into repeated edges). -/
+def refineG (strict : Bool) (c : Nat → P2 α) (nv : Nat) (es : List Edge) : Option (List Edge) :=
+  if strict then refineAll c nv es else some es
+
+/-- Vertices are input vertices, triangles have the required orientation (`cw = true`: clockwise,
+`orient < 0`; with `strict = false` zero-area triangles are tolerated: `orient ≤ 0`, and edges are
+not subdivided), the (refined) edges glue. -/
+def edgesOkG (strict : Bool) (c : Nat → P2 α) (nv : Nat) (cw : Bool) (bnd : List Edge) (tris : List Tri) : Bool :=
+  tris.all (fun t => decide (t.1 < nv) && decide (t.2.1 < nv) && decide (t.2.2 < nv)) &&
+  tris.all (fun t =>
+    if strict then (if cw then decide (triOrient c t < 0) else decide (0 < triOrient c t))
+    else (if cw then !decide (0 < triOrient c t) else !decide (triOrient c t < 0))) &&
+  match refineG strict c nv bnd, refineG strict c nv (dirEdges tris) with
+  | some B, some E => gluedOk B E
+  | _, _ => false
+
 /-- Vertices are input vertices, triangles are non-degenerate with the required orientation
 (`cw = true`: clockwise, `orient < 0`), the refined edges glue. -/
 def edgesOk (c : Nat → P2 α) (nv : Nat) (cw : Bool) (bnd : List Edge) (tris : List Tri) : Bool :=
-  tris.all (fun t => decide (t.1 < nv) && decide (t.2.1 < nv) && decide (t.2.2 < nv)) &&
-  tris.all (fun t => if cw then decide (triOrient c t < 0) else decide (0 < triOrient c t)) &&
-  match refineAll c nv bnd, refineAll c nv (dirEdges tris) with
-  | some B, some E => gluedOk B E
-  | _, _ => false
+  edgesOkG true c nv cw bnd tris
 
 /-- The full checker of the task statement: `edgesOk` plus the (provably redundant) area equation
 Σ triangle areas = region area by the shoelace formula over the boundary edges. -/
